@@ -61,7 +61,8 @@ TReset ==
 TAcquire ==
   /\ Point("env.lock.acquired")
   /\ holder' = Line.what /\ found' = Line.st /\ sec' = 0 /\ effects' = 0
-  /\ legal' = (Line.what = "DESTROY" \/ (Line.what \in Events /\ Line.st \in Table[Line.what].src))
+  \* a teardown is not legal on an environment that is already DONE
+  /\ legal' = IF Line.what = "DESTROY" THEN Line.st # "DONE" ELSE (Line.what \in Events /\ Line.st \in Table[Line.what].src)
   /\ mst' = Line.st
   /\ nviol' = nviol
        + Soft("OneAtATime", holder = "", <<holder, Line.what>>)
@@ -109,9 +110,11 @@ TEnvEv ==
 
 \* a hook started / a task command was sent: effects of the transition in progress
 TEffect ==
-  /\ (Line.ev = "HookStart" /\ IsEnv) \/ (Line.ev = "MMessage" /\ IsEnv)
+  /\ (Line.ev = "HookStart" /\ IsEnv) \/ (Line.ev = "MMessage" /\ IsEnv) \/ Point("env.teardown.phase")
   /\ effects' = IF holder # "" THEN effects + 1 ELSE effects
-  /\ UNCHANGED <<scn, mst, holder, found, legal, sec, nviol, ndrift>>
+  \* (judged at once: a request that is not legal may never come back and release the lock)
+  /\ nviol' = nviol + Soft("IllegalHasNoEffect", holder = "" \/ legal, <<holder, found, Line.ev>>)
+  /\ UNCHANGED <<scn, mst, holder, found, legal, sec, ndrift>>
 
 Dst(op) == IF op \in Events THEN Table[op].dst ELSE ""
 
@@ -129,7 +132,7 @@ TReply ==
 TOther ==
   /\ ~(Line.ev = "Reset")
   /\ ~Point("env.lock.acquired") /\ ~Point("env.lock.release") /\ ~Point("env.setstate") /\ ~Point("api.force.done")
-  /\ ~(Line.ev = "EnvEv" /\ IsEnv) /\ ~(Line.ev \in {"HookStart", "MMessage"} /\ IsEnv)
+  /\ ~(Line.ev = "EnvEv" /\ IsEnv) /\ ~(Line.ev \in {"HookStart", "MMessage"} /\ IsEnv) /\ ~Point("env.teardown.phase")
   /\ ~(Line.ev = "ApiReply" /\ Line.call = "control" /\ IsEnv)
   /\ UNCHANGED <<scn, mst, holder, found, legal, sec, effects, nviol, ndrift>>
 
